@@ -257,36 +257,58 @@ def rule_geo1(ctx):
     f = ctx.p.get_function(CA, "generate_automaton")
     r.analysed(f)
     pc = path_conditions(f.node)
-    sites = [c for c in ast.walk(f.node) if isinstance(c, ast.Call)
-             and isinstance(c.func, ast.Attribute)
-             and c.func.attr in ("append", "add")
-             and dotted(c.func.value) == "edges"]
+    # the loop over the generators and the statements that record an edge
+    # labelled with its loop variable (a store / append whose value or key
+    # mentions that variable)
+    sites = []
+    for lp in ast.walk(f.node):
+        if not (isinstance(lp, ast.For) and isinstance(lp.target, ast.Name)
+                and isinstance(lp.iter, ast.Call)
+                and dotted(lp.iter.func) == "range"):
+            continue
+        k = lp.target.id
+        for c in ast.walk(lp):
+            if isinstance(c, ast.Call) and isinstance(c.func, ast.Attribute) \
+                    and c.func.attr in ("append", "add") and any(
+                        isinstance(x, ast.Name) and x.id == k
+                        for a in c.args for x in ast.walk(a)):
+                sites.append((c, k))
+            if isinstance(c, ast.Assign) and len(c.targets) == 1 \
+                    and isinstance(c.targets[0], ast.Subscript) \
+                    and isinstance(c.targets[0].value, ast.Subscript) \
+                    and isinstance(c.targets[0].slice, ast.Name) \
+                    and c.targets[0].slice.id == k:
+                sites.append((c, k))        # graph[node][k] = target
     if not sites:
         r.note("GEO1", loc(f, f.node), "generate_automaton",
-               "no `edges.append(..)` found (not judged)")
+               "no statement recording an edge labelled with the loop "
+               "variable found (not judged)")
         return
-    for c in sites:
-        st = stmt_of(c, f.module.parents)
+    for c, k in sites:
+        st = c if isinstance(c, ast.stmt) else stmt_of(c, f.module.parents)
         ok = False
         for t, pol in pc.get(id(st), []):
             if isinstance(t, ast.Compare) and len(t.ops) == 1 \
                     and isinstance(t.left, ast.Subscript) \
-                    and dotted(t.left.value) == "node" \
+                    and isinstance(t.left.slice, ast.Name) \
+                    and t.left.slice.id == k \
                     and const_value(t.comparators[0]) == 1:
                 if (isinstance(t.ops[0], ast.Eq) and not pol) or (
                         isinstance(t.ops[0], ast.NotEq) and pol):
                     ok = True
         inst = "generate_automaton:edge"
         if ok:
-            r.ok("GEO1", inst, loc(f, c), dotted(c)[:80],
-                 "`node[k] != 1` holds where the edge is recorded")
+            r.ok("GEO1", inst, loc(f, c), dotted(c)[:80]
+                 if isinstance(c, ast.Call) else norm_stmt(c)[:80],
+                 f"`<state>[{k}] != 1` holds where the edge is recorded")
         else:
             r.violation(
-                "GEO1", f"{f.fq}|edge", loc(f, c), dotted(c)[:120],
-                "the edge is recorded without `node[k] != 1` in force: a "
-                "letter whose simple root is already inverted shortens the "
-                "word, so the automaton accepts non-reduced words",
-                instance=inst)
+                "GEO1", f"{f.fq}|edge", loc(f, c),
+                (dotted(c) if isinstance(c, ast.Call) else norm_stmt(c))[:120],
+                f"the edge labelled `{k}` is recorded without "
+                f"`<state>[{k}] != 1` in force: a letter whose simple root "
+                "is already inverted shortens the word, so the automaton "
+                "accepts non-reduced words", instance=inst)
 
 
 def rule_lex1(ctx):
